@@ -225,6 +225,8 @@ class Interp:
         self.unmodelled = {}
         self.summaries = 0
         self._closure_env = {}
+        self.decide_hook = None
+        self.min_one_iter = None  # hook(f, for_stmt) -> bool: the loop body runs at least once
 
     # ------------------------------------------------------------------------------
     # lattice on values
@@ -515,6 +517,7 @@ class Interp:
             env0 = dict(args)
             # closures: free variables are read from the definition-time environment
             inn: Dict[int, dict] = {g.entry.id: env0}
+            back: Dict[int, dict] = {}  # for-head id -> join of states arriving from the loop body
             work = [g.entry.id]
             inwork = {g.entry.id}
             res = Interp.Result()
@@ -539,6 +542,8 @@ class Interp:
                 if node.kind == "test":
                     v = self.eval(node.ast, out_env, f)
                     c = self.truth(v)
+                    if c is None and self.decide_hook is not None:
+                        c = self.decide_hook(node.ast, self)
                     if c is not None:
                         forced = c
                 elif node.kind == "stmt":
@@ -577,6 +582,11 @@ class Interp:
                             continue
                         e2 = out_env
                         if node.kind == "for":
+                            if lab == "done" and self.min_one_iter is not None and self.min_one_iter(f, node.ast):
+                                # the body runs at least once: only states that went round leave
+                                if nid not in back:
+                                    continue
+                                e2 = dict(back[nid])
                             if lab == "iter":
                                 e2 = dict(out_env)
                                 self.assign(node.ast.target, self.iter_elem(iter_val, node.ast), e2, f, node.ast)
@@ -596,6 +606,26 @@ class Interp:
                         continue
                     if tgt.kind == "raise_exit":
                         continue
+                    if tgt.kind == "for" and self.min_one_iter is not None and g.inside(node, tgt.ast):
+                        bk = back.get(j)
+                        if bk is None:
+                            back[j] = dict(e2)
+                            bchanged = True
+                        else:
+                            bchanged = False
+                            for k, v in e2.items():
+                                ov = bk.get(k)
+                                if ov is None:
+                                    bk[k] = v
+                                    bchanged = True
+                                elif ov != v:
+                                    nv = self.norm(self.join(ov, v))
+                                    if nv != ov:
+                                        bk[k] = nv
+                                        bchanged = True
+                        if bchanged and j not in inwork:
+                            work.append(j)
+                            inwork.add(j)
                     old = inn.get(j)
                     if old is None:
                         inn[j] = dict(e2)
